@@ -444,6 +444,14 @@ func (b *builder) processFunction(root *functionNode, props *builderProp) (query
 		if arg3, err = b.processNode(root.Args[2], flagsEnum.None, props); err != nil {
 			return nil, err
 		}
+		// testing the regular expression before, as matches() does.
+		if q, ok := arg2.(*constantQuery); ok {
+			if pattern, ok := q.Val.(string); ok {
+				if _, err = getRegexp(pattern); err != nil {
+					return nil, fmt.Errorf("replace() got error. %v", err)
+				}
+			}
+		}
 		qyOutput = &functionQuery{Func: replaceFunc(arg1, arg2, arg3)}
 	case "translate":
 		//translate( string , string, string )
